@@ -27,7 +27,8 @@ PROP = {
              "cancelled-result-without-cancel", "cancel-completed-with-success", "cancel-left-operation-in-flight",
              "operation-never-completed-although-ready", "callback-of-unknown-op", "handler-nesting-broken", "return-without-call",
              "op-id-reused", "panic", "ledger-callback-not-owed", "ledger-structure"],
-    "secondary_keys": ["operation-never-completed-although-ready", "cancel-left-operation-in-flight"],
+    "secondary_keys": ["operation-never-completed-although-ready", "cancel-left-operation-in-flight", "callback-twice", "callback-after-close",
+                       "ledger-callback-not-owed"],
     "rule": LOOP_RULE,
     "trusted_base": LOOP_TB,
     "assumptions": [
